@@ -345,7 +345,7 @@ func genCase(t *rapid.T) Case {
 }
 
 func TestProp(t *testing.T) {
-	evid.Rapid(t, "return", 6000, 80000, func(t *rapid.T) {
+	evid.Rapid(t, "return", 6000, 300000, func(t *rapid.T) {
 		c := genCase(t)
 		evid.Run(t, "return", c, func() evid.Outcome { return checkCase(c) })
 	})
